@@ -200,6 +200,14 @@ theorem hashedDecrypt_ok_hash (P : Prims) (Q : NumPrims) (key : PrivKey) (c d : 
       exact guessData_hash P _ _ _ _ hg
     · cases h
 
+/-! ### Key fingerprint -/
+
+/-- `RSAFingerprint` is a 64-bit value, and the minimal big-endian form it hashes (`big.Int.Bytes()`)
+denotes the key's numbers (no leading-zero ambiguity: `beNat (beMin n) = n`). -/
+theorem rsaFingerprint_wellformed (P : Prims) (hP : LawfulPrims P) (key : PubKey) :
+    rsaFingerprint P key < 2 ^ 64 ∧ beNat (beMin key.n) = key.n ∧ beNat (beMin key.e) = key.e :=
+  ⟨rsaFingerprint_lt P hP key, beMin_beNat_roundtrip _, beMin_beNat_roundtrip _⟩
+
 /-! ### Real RSA keys -/
 
 /-- The round trip for a textbook RSA key pair: `N = p·q` (distinct primes, `N ≤ 2^2048`),
